@@ -77,12 +77,20 @@ func writeCase(dir string, c LoadCase) {
 			os.MkdirAll(p, 0o755)
 			continue
 		}
+		if strings.HasPrefix(content, "<SYMLINK>") { // a symbolic link to the named path (relative to the link's directory)
+			os.Symlink(strings.TrimPrefix(content, "<SYMLINK>"), p)
+			continue
+		}
 		os.WriteFile(p, []byte(content), 0o644)
 	}
 	os.MkdirAll(filepath.Join(dir, "home"), 0o755)
 	for name, content := range c.Home {
 		p := filepath.Join(dir, "home", name)
 		os.MkdirAll(filepath.Dir(p), 0o755)
+		if strings.HasPrefix(content, "<SYMLINK>") {
+			os.Symlink(strings.TrimPrefix(content, "<SYMLINK>"), p)
+			continue
+		}
 		os.WriteFile(p, []byte(content), 0o644)
 	}
 }
